@@ -287,6 +287,25 @@ pub fn gen_case(prop: &str, seed: u64, tier: &str, run: u64) -> Case {
             p.allow_precreate = true;
             p.max_ops = 14;
         }
+        "C20" if rng.chance(1, 12) => {
+            // a history long enough for the segment id to gain a digit (9 -> 10), killed around the
+            // roll-over into segment 10: what recovery writes back (snapshot, pruning) must still equal
+            // the acknowledged history (same run class as C03's; seeded change C20-f)
+            p = crash_profile(thorough);
+            let n = *rng.pick(&[2u64, 2, 3]);
+            p.n_choices = vec![n];
+            p.min_ops = (10 * n + 1) as usize;
+            p.max_ops = (10 * n + 3) as usize;
+            p.w_abort = 0;
+            p.w_remove = 0;
+            p.w_remove_range = 0;
+            p.w_checkpoint = 0;
+            p.w_reopen = 0;
+            p.max_keys = 3;
+            p.big_contents = false;
+            p.big_keys = false;
+            mode = Mode::Crash { cuts: CutSel::All { max: 90, sseed: rng.next() }, depth: 1, suffix_every: 0, verify: false };
+        }
         "C20" => match rng.below(4) {
             3 => {
                 // versions must not be reused across restarts even when an append failed in between
